@@ -13,3 +13,43 @@ Example ex_sorted :
 Proof. vm_compute. reflexivity. Qed.
 (* negative ints wrap (Go's uint32(v)): detail = -1 is sent as 0xFFFFFFFF *)
 Example ex_neg : enc (VInt (-1)) = [2; 255; 255; 255; 255]. Proof. vm_compute. reflexivity. Qed.
+
+(* ---- context LTS: concrete runs (non-vacuity) ---- *)
+From V Require Import C20.CtxLTS C20.CtxSpec.
+
+(* two Rebuild calls; the second joins the build started by the first; a
+   Cancel arrives while it runs *)
+Definition ex_actions : list action :=
+  [ACall OpRebuild; AStep 0%nat; AStep 0%nat;            (* call 0 starts build 0, on-start *)
+   ACall OpRebuild; AStep 1%nat;                          (* call 1 joins *)
+   AEdit; ACall OpCancel; AStep 2%nat; AStep 2%nat;       (* cancel: lock, set flag *)
+   AStep 0%nat; AStep 0%nat; AStep 0%nat; AStep 0%nat;    (* poll (cancelled), end, publish, done+return *)
+   AStep 1%nat; AStep 2%nat].                             (* joiner and Cancel return *)
+Definition ex_trace : list label :=
+  match exec_all init ex_actions with Some (_, tr) => tr | None => [] end.
+Example ex_trace_val : ex_trace =
+  [LCall 0 OpRebuild; LTau; LStart 0; LCall 1 OpRebuild; LTau; LEdit; LCall 2 OpCancel; LTau; LTau;
+   LTau; LEnd 0 true; LTau; LRet 0 OpRebuild (RvBuild 0 true None);
+   LRet 1 OpRebuild (RvBuild 0 true None); LRet 2 OpCancel RvUnit].
+Proof. vm_compute. reflexivity. Qed.
+Example ex_trace_ok : history_ok ex_trace = true. Proof. vm_compute. reflexivity. Qed.
+
+(* the checker discriminates: histories of the code before the fix
+   "Cancel and a second Dispose must wait for the running build" are rejected *)
+Example ex_bad_cancel : history_ok
+  [LCall 0 OpRebuild; LStart 0; LLoad 0 0; LCall 1 OpDispose; LCall 2 OpCancel; LRet 2 OpCancel RvUnit;
+   LEnd 0 false; LRet 0 OpRebuild (RvBuild 0 false (Some 0%nat)); LRet 1 OpDispose RvUnit] = false.
+Proof. vm_compute. reflexivity. Qed.
+Example ex_bad_dispose : history_ok
+  [LCall 0 OpRebuild; LStart 0; LLoad 0 0; LCall 1 OpDispose; LCall 2 OpDispose; LRet 2 OpDispose RvUnit;
+   LEnd 0 false; LRet 0 OpRebuild (RvBuild 0 false (Some 0%nat)); LRet 1 OpDispose RvUnit] = false.
+Proof. vm_compute. reflexivity. Qed.
+(* a stale result (the build had been returned before the call was made) is rejected *)
+Example ex_bad_stale : history_ok
+  [LCall 0 OpRebuild; LStart 0; LLoad 0 0; LEnd 0 false; LRet 0 OpRebuild (RvBuild 0 false (Some 0%nat));
+   LEdit; LCall 1 OpRebuild; LRet 1 OpRebuild (RvBuild 0 false (Some 0%nat))] = false.
+Proof. vm_compute. reflexivity. Qed.
+(* two overlapping builds are rejected *)
+Example ex_bad_overlap : history_ok
+  [LCall 0 OpRebuild; LCall 1 OpRebuild; LStart 0; LStart 1] = false.
+Proof. vm_compute. reflexivity. Qed.
